@@ -340,6 +340,23 @@ def mid_update_cancel(ctx):
                 for nm_ in runs.FIELDS:
                     if not np.array_equal(np.asarray(getattr(sol.tdgl_data, nm_)), last["data"][nm_]):
                         bad.append(("returned solution", nm_))
+        if sol is not None:
+            # per-step bookkeeping of the partial solution: one record per COMPLETED update, equal to the uninterrupted
+            # run's records, and the time axis ends at the time label of the final frame
+            n_done = int(sol.tdgl_data.state["step"])
+            dyn, rdyn = sol.dynamics, ref.dynamics
+            dts_ = np.asarray(dyn.dt)
+            if len(dts_) != n_done or not np.array_equal(dts_, np.asarray(rdyn.dt)[:n_done]):
+                bad.append(("partial dynamics", f"{len(dts_)} dt records for {n_done} completed updates"))
+            for nm_ in ("mu", "theta"):
+                a_, b_ = getattr(dyn, nm_, None), getattr(rdyn, nm_, None)
+                if a_ is not None and b_ is not None and not np.array_equal(np.asarray(a_), np.asarray(b_)[..., : np.asarray(a_).shape[-1]]):
+                    bad.append(("partial dynamics", nm_))
+                if a_ is not None and np.asarray(a_).shape[-1] != n_done:
+                    bad.append(("partial dynamics", f"{nm_} has {np.asarray(a_).shape[-1]} columns for {n_done} completed updates"))
+            if frames and float(sol.times[-1]) != float(frames[-1]["time"]):
+                bad.append(("partial dynamics", f"times[-1]={float(sol.times[-1])!r} but the final frame is at t={float(frames[-1]['time'])!r}"))
+            ctx.count("partial_solution_bookkeeping_checked")
         if bad:
             rp = dict(interrupted_in=where, at_step=at_step, where=[list(map(str, b)) for b in bad[:6]])
             ctx.fail("cancel-mid-update:untruthful-frame", f"cancellation inside {where} of step {at_step}: frames / partial solution do not hold the states of the uninterrupted run: {bad[:4]}", rp)
